@@ -2229,6 +2229,10 @@ def preprocess_file(
         pp_defs = {}
     if include_dirs is None:
         include_dirs = set()
+    else:
+        # The directory of this file is searched for this file only: do not add
+        # it to the caller's set (the include directories of the whole server)
+        include_dirs = set(include_dirs)
     if file_path is not None:
         include_dirs.add(os.path.abspath(os.path.dirname(file_path)))
         # Files whose preprocessing is in progress: including one of them again
